@@ -100,6 +100,20 @@ impl TreeSpec {
                 let cells = a.outdim() * (a.indim() + 1);
                 let c = pick(*which, cells);
                 let (r, k) = (c / (a.indim() + 1), c % (a.indim() + 1));
+                if *delta == 0.0 && delta.is_sign_negative() {
+                    // an equal copy that is not bit-identical: the first zero entry (from position c on) changes sign
+                    let cols = a.indim() + 1;
+                    for off in 0..cells {
+                        let cc = (c + off) % cells;
+                        let (rr, kk) = (cc / cols, cc % cols);
+                        let v = if kk == a.indim() { &mut a.bias[rr] } else { &mut a.mat.rows[rr][kk] };
+                        if *v == 0.0 {
+                            *v = -*v;
+                            break;
+                        }
+                    }
+                    return a;
+                }
                 let d = if *delta == 0.0 { 1.0 } else { *delta };
                 if k == a.indim() {
                     a.bias[r] += d;
@@ -327,7 +341,7 @@ fn pred_row(n: usize) -> impl Strategy<Value = PredRow> {
 fn leaf_spec(out: usize, inn: usize, pool_pct: u32) -> impl Strategy<Value = LeafSpec> {
     prop_oneof![
         pool_pct => any::<u16>().prop_map(LeafSpec::Pool),
-        (pool_pct / 4 + 1) => (any::<u16>(), any::<u16>(), nice_nonzero()).prop_map(|(pool, which, delta)| LeafSpec::Near { pool, which, delta }),
+        (pool_pct / 4 + 1) => (any::<u16>(), any::<u16>(), prop_oneof![9 => nice_nonzero().boxed(), 1 => Just(-0.0f64).boxed()]).prop_map(|(pool, which, delta)| LeafSpec::Near { pool, which, delta }),
         (100 - pool_pct + 1) => aff(out, inn).prop_map(LeafSpec::Fresh),
     ]
 }
